@@ -168,13 +168,17 @@ class Ledger(Process):
         self.cpolls = 0
 
     def ports_schema(self):
-        return {
+        schema = {
             'log': {'_default': [], '_updater': 'v_append', '_emit': True},
             'own': {'_default': [], '_updater': 'v_append_own', '_emit': True},
             'acc': {'_default': 0, '_emit': True},
             'clock': {'_default': 0.0, '_emit': True},
             'flag': {'_default': True, '_updater': 'set', '_emit': True},
         }
+        if self.parameters.get('amount2'):
+            # a second port wired to the accumulator's node: one returned update carries two parts for it
+            schema['acc2'] = {'_default': 0, '_emit': True}
+        return schema
 
     def calculate_timestep(self, states):
         ts = _ts_answer(self.parameters['ts'], self.k, self.polls, states)
@@ -215,9 +219,24 @@ class Ledger(Process):
             m.ev('invoke', 'process', tok, m.now(), tuple(tuple(t) for t in states['log']))
         amount = self.parameters.get('amount', 1)
         upd = {'log': [tok], 'own': [tok], 'acc': amount, 'clock': timestep}
+        if self.parameters.get('amount2'):
+            upd['acc2'] = self.parameters['amount2']
         tg = self.parameters.get('toggle')
         if tg and self.k % tg == 0:
             upd['flag'] = not states['flag']
+        return upd
+
+
+class LedgerP(Ledger):
+    """Ledger with timestep kind 'param': keeps the default Process.calculate_timestep (which answers
+    parameters['timestep']) and changes that parameter itself after every invocation - to the scheduler
+    the same as kind 'indexed'."""
+    calculate_timestep = Process.calculate_timestep
+
+    def next_update(self, timestep, states):
+        upd = super().next_update(timestep, states)
+        seq = self.parameters['ts']['seq']
+        self.parameters['timestep'] = seq[self.k % len(seq)]
         return upd
 
 
